@@ -427,52 +427,83 @@ func checkC16(p *Program, r *Reporter) {
 	if lastTimeCall == nil {
 		r.Violate("E4-OWNREP", shortFn(sms), "lastTime", p.pos(sms.Pos()), "the $Time$ of the segment to send is no longer taken from timeline entries", nil)
 	} else {
-		var sources []ssa.Value
+		// every assignment to the entries variable used for $Time$ is judged on its own
 		recv := lastTimeCall.Call.Args[0]
-		var collect func(v ssa.Value, depth int)
-		seen := map[ssa.Value]bool{}
-		collect = func(v ssa.Value, depth int) {
-			if seen[v] || depth > 6 {
-				return
-			}
-			seen[v] = true
-			switch x := v.(type) {
-			case *ssa.Phi:
-				for _, e := range x.Edges {
-					collect(e, depth+1)
-				}
-			case *ssa.UnOp:
-				if al, ok := x.X.(*ssa.Alloc); ok && x.Op == token.MUL && al.Referrers() != nil {
-					for _, ref := range *al.Referrers() {
-						if st, ok := ref.(*ssa.Store); ok && st.Addr == ssa.Value(al) {
-							collect(st.Val, depth+1)
-						}
+		var stores []*ssa.Store
+		if ld, ok := recv.(*ssa.UnOp); ok && ld.Op == token.MUL {
+			if al, ok := ld.X.(*ssa.Alloc); ok && al.Referrers() != nil {
+				for _, ref := range *al.Referrers() {
+					if st, ok := ref.(*ssa.Store); ok && st.Addr == ssa.Value(al) {
+						stores = append(stores, st)
 					}
-					return
 				}
-				sources = append(sources, v)
-			default:
-				sources = append(sources, v)
 			}
 		}
-		collect(recv, 0)
-		for _, src := range sources {
-			okSrc, why := false, "the entries used are not the result of a timeline generator call for this representation: "+src.String()
-			if c, ok := src.(*ssa.Call); ok && c.Call.StaticCallee() != nil && strings.HasPrefix(c.Call.StaticCallee().Name(), "generateTimelineEntries") {
-				for _, a := range c.Call.Args {
-					if valueReadsField(p, a, "app.cmafRepData.repID") {
-						okSrc, why = true, "generated by "+c.Call.StaticCallee().Name()+" for this representation's id"
+		if len(stores) == 0 {
+			r.Violate("E4-OWNREP", shortFn(sms), "entries-source", p.pos(lastTimeCall.Pos()), "the entries used for $Time$ are not assigned through a local variable: shape not recognised", nil)
+		}
+		ownCall := func(v ssa.Value, seen map[ssa.Value]bool) (bool, string) {
+			// v (through phis) is the result of a timeline generator call that received this representation's id
+			var walk func(v ssa.Value) (bool, string)
+			walk = func(v ssa.Value) (bool, string) {
+				if seen[v] {
+					return true, ""
+				}
+				seen[v] = true
+				switch x := v.(type) {
+				case *ssa.Phi:
+					for _, e := range x.Edges {
+						if ok, why := walk(e); !ok {
+							return false, why
+						}
+					}
+					return true, ""
+				case *ssa.Const:
+					return true, "" // the zero value before the first iteration
+				case *ssa.Call:
+					if x.Call.StaticCallee() != nil && strings.HasPrefix(x.Call.StaticCallee().Name(), "generateTimelineEntries") {
+						for _, a := range x.Call.Args {
+							if valueReadsField(p, a, "app.cmafRepData.repID") {
+								return true, ""
+							}
+						}
+						return false, "the timeline generator call does not receive this representation's id"
+					}
+				}
+				return false, "not the result of a timeline generator call: " + v.String()
+			}
+			return walk(v)
+		}
+		for _, st := range stores {
+			okSrc, why := false, ""
+			if c, isCall := st.Val.(*ssa.Call); isCall {
+				okSrc, why = ownCall(c, map[ssa.Value]bool{})
+			} else {
+				// a value carried from elsewhere (the reference's entries): only legitimate for a track without a
+				// representation of its own — dominated by a failed lookup of this id in asset.Reps — or when it is
+				// this representation's own generator result (first representation = reference)
+				if ok, _ := ownCall(st.Val, map[ssa.Value]bool{}); ok && !isLoopCarried(st.Val) {
+					okSrc = true
+				}
+				for _, cd := range condsAt(st) {
+					ex, ok := cd.V.(*ssa.Extract)
+					if !ok || ex.Index != 1 || cd.Pos {
+						continue
+					}
+					if lk, ok := ex.Tuple.(*ssa.Lookup); ok && lk.CommaOk {
+						if f, ok := loadedField(lk.X); ok && f == "app.asset.Reps" && valueReadsField(p, lk.Index, "app.cmafRepData.repID") {
+							okSrc, why = true, "reference entries used only where this id has no representation of its own (generated subtitles)"
+						}
 					}
 				}
 				if !okSrc {
-					why = "the timeline generator call does not receive this representation's id"
+					why = "entries carried over from another representation are assigned without testing that this id has no representation of its own"
 				}
 			}
-			pos := p.pos(lastTimeCall.Pos())
-			if in, ok := src.(ssa.Instruction); ok {
-				pos = p.pos(instrPos(in))
+			if okSrc && why == "" {
+				why = "generated for this representation's id"
 			}
-			r.Decide(okSrc, "E4-OWNREP", shortFn(sms), "entries-source", pos, why,
+			r.Decide(okSrc, "E4-OWNREP", shortFn(sms), "entries-source", p.pos(st.Pos()), why,
 				"a representation's segment time is computed from entries of another representation (other timescale or segment boundaries): "+why, nil)
 		}
 	}
@@ -508,4 +539,10 @@ func nilTestOperands(cd cond) []ssa.Value {
 		return []ssa.Value{bo.Y}
 	}
 	return nil
+}
+
+// isLoopCarried: v is a phi in a loop header (a value from a previous iteration).
+func isLoopCarried(v ssa.Value) bool {
+	ph, ok := v.(*ssa.Phi)
+	return ok && naturalLoop(ph.Block()) != nil
 }
